@@ -9,18 +9,6 @@ import Matreex.Model.Index
 namespace Matreex
 variable {α : Type}
 
-/-- `ptr::swap_nonoverlapping(base.add i, base.add j, n)` for elements of `es` bytes: UB if either
-range leaves the buffer, or if the ranges overlap while `n * es > 0`.  In the `ok` branch every
-index read below is in range by the first check (`getD`'s default is never used; see
-`C10.swapNonoverlapping_get`). -/
-def swapNonoverlapping (es : Nat) (d : Array α) (i j n : Nat) : M (Array α) :=
-  if ¬ (i + n ≤ d.size ∧ j + n ≤ d.size) then .error (.ub "ptr::swap_nonoverlapping: range out of bounds")
-  else if n * es ≠ 0 ∧ (i < j + n ∧ j < i + n) then
-    .error (.ub "ptr::swap_nonoverlapping: ranges overlap")
-  else .ok (Array.ofFn fun (k : Fin d.size) =>
-    if i ≤ k.val ∧ k.val < i + n then d[j + (k.val - i)]?.getD d[k]
-    else if j ≤ k.val ∧ k.val < j + n then d[i + (k.val - j)]?.getD d[k] else d[k])
-
 /-- `swap_major_axis_vectors(m, n)`: rows of a row-major / columns of a column-major matrix -/
 def Matrix.swapMajor (es : Nat) (m : Matrix α) (a b : Nat) : M (Except Error Unit × Matrix α) :=
   if a ≥ m.shape.major ∨ b ≥ m.shape.major then .ok (.error .indexOutOfBounds, m)
